@@ -69,7 +69,15 @@ func crashWorkload(seed uint64, nOps int) []crashOp {
 	}
 	nid := 0
 	for len(ops) < nOps {
-		switch weighted(t, []int{5, 3, 2, 1, 1}) {
+		switch weighted(t, []int{10, 6, 4, 2, 2, 1}) {
+		case 5: // a very large batch (hundreds of points, one acknowledgement): all of it or nothing, however the store cuts its work
+			n := nodes[t.Draw(len(nodes))]
+			cnt := 520 + t.Draw(800)
+			var big data.Points
+			for i := 0; i < cnt; i++ {
+				big = append(big, data.Point{Type: "huge", Key: fmt.Sprint(i), Time: next(), Text: "h", Value: float64(i)})
+			}
+			ops = append(ops, crashOp{Node: n, Pts: big})
 		case 0: // node points (also for a node that has no edge yet: points first)
 			n := nodes[t.Draw(len(nodes))]
 			if t.Chance(1, 8) {
